@@ -702,6 +702,78 @@ func main() {
 			})
 		})
 
+		// "Wherever ... interleaved control frames ... fall": a text message whose two halves (cut
+		// inside a multi-byte sequence) are separated by a long run of control frames and empty
+		// continuations - 99, 100, 101, 257 of them - is judged by its payload alone.
+		r.Part("E8-long-runs-of-control-frames-inside-a-text-message", func(t *explore.T) {
+			texts := []struct {
+				name string
+				a, b []byte
+			}{
+				{"valid a-euro-b cut inside the euro sign", []byte("a\xe2\x82"), []byte("\xacb")},
+				{"invalid: the sequence is never completed", []byte("a\xe2\x82"), []byte("(b")},
+				{"valid ASCII", []byte("he"), []byte("llo")},
+			}
+			ds := []drivers.Driver{drivers.ReaderLoop(512), drivers.ReaderLoop(1), drivers.ReaderCopy(), drivers.ReadMessageLoop(), drivers.ReadDataLoop("Generic"), drivers.ReadDataLoop("Text"), drivers.ReaderReceiveLoop()}
+			for _, side := range []streams.Side{streams.Server, streams.Client} {
+				for _, tx := range texts {
+					for _, n := range []int{99, 100, 101, 257} {
+						for _, mix := range []string{"pings", "pongs(p)", "empty-continuations", "mixed"} {
+							var frames []streams.Frame
+							mk := func(i int, op byte, fin bool, p []byte) streams.Frame {
+								return streams.Frame{H: refmodel.Hdr{Fin: fin, Op: op, Masked: side == streams.Server, Mask: streams.Masks[i%3]}, Payload: p}
+							}
+							frames = append(frames, mk(0, 1, false, tx.a))
+							for i := 0; i < n; i++ {
+								switch {
+								case mix == "pings" || (mix == "mixed" && i%3 == 0):
+									frames = append(frames, mk(i, 9, true, nil))
+								case mix == "pongs(p)" || (mix == "mixed" && i%3 == 1):
+									frames = append(frames, mk(i, 10, true, []byte("p")))
+								default:
+									frames = append(frames, mk(i, 0, false, nil))
+								}
+							}
+							frames = append(frames, mk(1, 0, true, tx.b))
+							data, _ := streams.Wire(frames)
+							full := append(append([]byte{}, tx.a...), tx.b...)
+							for _, d := range ds {
+								side, tx, n, mix, d := side, tx, n, mix, d
+								t.Do(func() string {
+									return fmt.Sprintf("%s text (%s) with %d x %s between its halves, driver=%s", side, tx.name, n, mix, d.Name)
+								}, func() *explore.Fail {
+									var res drivers.Result
+									d.Run(env.NewSrc(data), side, drivers.Cfg{CheckUTF8: true}, &res)
+									var got []byte
+									delivered := false
+									for _, e := range res.Events {
+										if e.Kind == "msg" {
+											delivered = true
+											got = e.Payload
+										}
+									}
+									if utf8.Valid(full) {
+										if !delivered || !bytes.Equal(got, full) || res.Err != io.EOF {
+											return explore.Failf("valid-text-behind-a-long-run-of-control-frames-not-delivered:"+d.Name, "err=%v delivered=%v payload %x", res.Err, delivered, got)
+										}
+										return nil
+									}
+									if delivered {
+										return explore.Failf("invalid-text-delivered:"+d.Name, "%x", got)
+									}
+									if res.Err != wsutil.ErrInvalidUTF8 {
+										return explore.Failf("invalid-text-behind-a-long-run-other-error:"+d.Name, "%v", res.Err)
+									}
+									return nil
+								})
+							}
+						}
+					}
+				}
+			}
+			t.Outcome("judged-by-payload")
+		})
+
 		// The reader of a connection that negotiated permessage-deflate: its extension list holds
 		// the message state that the application shares with its writer (as the autobahn example
 		// does). While an uncompressed fragmented text message is still arriving the application
